@@ -3045,9 +3045,7 @@ theorem preStep_ok {p : Pre} (op : PreOp) (h : PreOK p) : PreOK (p.step op) := b
     split
     · exact ⟨h1, h2, h3, h4, h5, h6, h7⟩
     · split <;> exact ⟨h1, h2, h3, h4, h5, h6, h7⟩
-  | suspend tid =>
-    simp only [Pre.step]
-    split <;> exact ⟨h1, h2, h3, h4, h5, h6, h7⟩
+  | suspend tid => exact ⟨h1, h2, h3, h4, h5, h6, h7⟩
   | resume tid => exact ⟨h1, h2, h3, h4, h5, h6, h7⟩
   | defer f => exact ⟨h1, h2, h3, h4, h5, h6, by simp [Pre.step, h7]⟩
   | tick d => exact ⟨h1, h2, h3, h4, h5, h6, h7⟩
@@ -3352,21 +3350,23 @@ example : (({} : World).run pumpOps).calls = [1, 2, 11, 21, 3, 12, 13] ∧
   decide +kernel
 
 /-- BEFORE the manager exists: install task 0 at 500000, task 1 at 500000,
-    re-install task 0 at 500000; then `TaskManager()` and a pass.  The replay
-    lists [0, 1, 0]: task 0 is armed, task 1 is armed, task 0 is moved behind
-    task 1 — task 1 fires first (`premgr_order`).  A suspend of the never
-    installed task 2 is refused (ValueError), `install_task(delta=…)` too. -/
+    re-install task 0 at 500000; task 3 is installed twice and then suspended;
+    then `TaskManager()` and a pass.  The list is [1, 0]: the re-install moved
+    task 0 behind task 1 — task 1 fires first (`premgr_order`); task 3 does not
+    fire.  A suspend of the never installed task 2 is a silent no-op;
+    `install_task(delta=…)` is refused. -/
 def preOps : List PreOp :=
-  [.installAt 0 500000, .installAt 1 500000, .suspend 2, .installAfter 2 5, .installAt 0 500000]
+  [.installAt 0 500000, .installAt 3 500000, .installAt 1 500000, .suspend 2, .installAfter 2 5,
+   .installAt 3 500000, .installAt 0 500000, .suspend 3]
 
-example : (preRun {} preOps).unsched = [0, 1, 0] ∧
-    (((preRun {} preOps).mkManager.step (.advOnce 500000 10)).1.fired.map (fun f => (f.tid, f.seq))) = [(1, 1), (0, 2)] ∧
-    (preRun {} preOps).w.out.length = 2 ∧
+example : (preRun {} preOps).unsched = [1, 0] ∧
+    (((preRun {} preOps).mkManager.step (.advOnce 500000 10)).1.fired.map (fun f => (f.tid, f.seq))) = [(1, 0), (0, 1)] ∧
+    (preRun {} preOps).w.out.length = 1 ∧
     ListedOK (preRun {} preOps).w (preRun {} preOps).unsched := by
   refine ⟨by decide +kernel, by decide +kernel, by decide +kernel, ?_⟩
   intro x hx
   have : x = 0 ∨ x = 1 := by
-    have h : (preRun {} preOps).unsched = [0, 1, 0] := by decide +kernel
+    have h : (preRun {} preOps).unsched = [1, 0] := by decide +kernel
     rw [h] at hx; simp at hx; omega
   rcases this with rfl | rfl
   · exact ⟨rfl, 500000, by decide +kernel⟩
